@@ -22,11 +22,19 @@ fn sgn(b: &Big) -> &'static str {
 pub struct BandTracker {
     /// per vamm: (height of the last block in which reserves changed, spot at the end of that block, reference for that block)
     cur: Vec<(u64, u128, u128)>,
+    /// per vamm: whether (spot at the end of the last changing block, reference for that block) are exact quotients of
+    /// the reserves they were observed on (no rounding in quote x 10^decimals / base)
+    exact: Vec<(bool, bool)>,
+}
+
+fn exact_spot(q: u128, b: u128, d: u128) -> bool {
+    b != 0 && Big::u(q).mul(Big::u(d)).sub(Big::u(q).mul(Big::u(d)).div(Big::u(b)).mul(Big::u(b))).is_zero()
 }
 
 impl BandTracker {
     pub fn begin(&mut self, s0: &Snap) {
         self.cur = s0.vamms.iter().map(|v| (s0.height, v.spot, v.spot)).collect();
+        self.exact = s0.vamms.iter().map(|v| (exact_spot(v.q, v.b, v.decimals), exact_spot(v.q, v.b, v.decimals))).collect();
     }
     /// reference price for trades executed at `height`
     pub fn reference(&self, vamm: usize, height: u64) -> u128 {
@@ -37,14 +45,28 @@ impl BandTracker {
             refp
         }
     }
+    /// true when the reference price and both band limits derived from it involve no rounding at all, so that
+    /// "inside the closed band" means the same in integer and in real arithmetic
+    pub fn band_is_exact(&self, vamm: usize, height: u64, fluct: u128, d: u128) -> bool {
+        let (h, _, _) = self.cur[vamm];
+        let (last_exact, ref_exact) = self.exact[vamm];
+        let e = if height > h { last_exact } else { ref_exact };
+        let r = self.reference(vamm, height);
+        let no_rem = |x: u128| Big::u(r).mul(Big::u(x)).sub(Big::u(r).mul(Big::u(x)).div(Big::u(d)).mul(Big::u(d))).is_zero();
+        e && fluct <= d && no_rem(d + fluct) && no_rem(d - fluct)
+    }
     pub fn observe(&mut self, pre: &Snap, post: &Snap) {
         for (i, (a, b)) in pre.vamms.iter().zip(post.vamms.iter()).enumerate() {
             if a.q != b.q || a.b != b.b {
                 let (h, last, refp) = self.cur[i];
+                let (last_exact, ref_exact) = self.exact[i];
+                let now_exact = exact_spot(b.q, b.b, b.decimals);
                 if post.height > h {
                     self.cur[i] = (post.height, b.spot, last);
+                    self.exact[i] = (now_exact, last_exact);
                 } else {
                     self.cur[i] = (h, b.spot, refp);
+                    self.exact[i] = (now_exact, ref_exact);
                 }
             }
         }
